@@ -24,6 +24,7 @@ pub trait GeoFloat: CoordFloat {
 //@type geo-types/src/geometry/multi_line_string.rs | MultiLineString
 //@type geo-types/src/geometry/multi_point.rs | MultiPoint
 //@type geo-types/src/geometry/polygon.rs | Polygon
+//@type geo-types/src/geometry/rect.rs | Rect
 //@type geo-types/src/geometry/multi_polygon.rs | MultiPolygon
 //@type geo/src/algorithm/dimensions.rs | Dimensions
 //@type geo/src/algorithm/line_measures/metric_spaces/euclidean/mod.rs | Euclidean
@@ -332,6 +333,70 @@ impl<T: GeoFloat> CentroidOperation<T> {
                 it.snapshot@.remaining().len() == multi_polygon.0@.len(),
                 forall|i: int| 0 <= i < multi_polygon.0@.len() ==> *(#[trigger] it.snapshot@.remaining()[i]) == multi_polygon.0@[i],
                 op_view(*self) == polygons_fold(op_view(*old(self)), multi_polygon.0@, it.index@ as int),
+//@end
+}
+
+// ------------------------------------------------------------------ Rect (degenerate rects count as points / lines)
+pub closed spec fn rmin<T: CoordNum>(r: Rect<T>) -> Coord<T> { r.min }
+pub closed spec fn rmax<T: CoordNum>(r: Rect<T>) -> Coord<T> { r.max }
+impl<T: CoordNum> Rect<T> {
+//@fn geo-types/src/geometry/rect.rs | impl<T: CoordNum> Rect<T> | min | id=C18.V.rect_min | props=C18
+//@ret r
+//@spec
+    ensures r == rmin(self),
+//@end
+//@fn geo-types/src/geometry/rect.rs | impl<T: CoordNum> Rect<T> | max | id=C18.V.rect_max | props=C18
+//@ret r
+//@spec
+    ensures r == rmax(self),
+//@end
+}
+impl<T: CoordNum> Line<T> {
+//@fn geo-types/src/geometry/line.rs | impl<T: CoordNum> Line<T> | new | id=C18.V.line_new | props=C18
+//@ret r
+//@spec
+    requires forall|c: C| call_requires(C::into, (c,)),
+    ensures call_ensures(C::into, (start,), r.start), call_ensures(C::into, (end,), r.end),
+//@end
+}
+pub assume_specification<T>[ <T as core::convert::From<T>>::from ](t: T) -> (r: T)
+    ensures r == t;
+impl<C: CoordNum> HasDimensions for Rect<C> {
+//@fn geo/src/algorithm/dimensions.rs | impl<C: CoordNum> HasDimensions for Rect<C> | dimensions | id=C06.V.rect_dimensions
+//@ret r
+//@spec
+        ensures r == (if ceq(rmin(*self), rmax(*self)) { Dimensions::ZeroDimensional }
+                      else if rmin(*self).x.val() == rmax(*self).x.val() || rmin(*self).y.val() == rmax(*self).y.val() { Dimensions::OneDimensional }
+                      else { Dimensions::TwoDimensional }),
+//@entry
+        proof { C::ax_obeys(); C::ax_order(); }
+//@end
+}
+pub uninterp spec fn m_rect_mid<T: GeoFloat>(r: Rect<T>) -> Coord<T>;
+pub uninterp spec fn m_rect_area<T: GeoFloat>(r: Rect<T>) -> int;
+impl<T: GeoFloat> Centroid for Rect<T> {
+    type Output = Point<T>;
+    #[verifier::external_body]
+    fn centroid(&self) -> (r: Point<T>) ensures r.0 == m_rect_mid(*self) { unimplemented!() }
+}
+pub trait Area<T> { fn unsigned_area(&self) -> T; }
+impl<T: GeoFloat> Area<T> for Rect<T> {
+    #[verifier::external_body]
+    fn unsigned_area(&self) -> (r: T) ensures r.val() == m_rect_area(*self) { unimplemented!() }
+}
+/// what add_rect does to a state: a point, the four (possibly degenerate) sides of a flat rect as lines, or the area-weighted centre
+pub open spec fn rect_step<T: GeoFloat>(init: Option<V>, r: Rect<T>) -> Option<V> {
+    let (mn, mx) = (rmin(r), rmax(r));
+    if ceq(mn, mx) { comb_opt(init, coord_contrib(mn)) }
+    else if mn.x.val() == mx.x.val() || mn.y.val() == mx.y.val() {
+        comb_opt(comb_opt(comb_opt(comb_opt(init, line_contrib(Line { start: mn, end: mn })), line_contrib(Line { start: mn, end: mx })),
+                          line_contrib(Line { start: mx, end: mx })), line_contrib(Line { start: mx, end: mn }))
+    } else { comb_opt(init, V { rank: 3, w: m_rect_area(r), ax: m_rect_mid(r).x.val() * m_rect_area(r), ay: m_rect_mid(r).y.val() * m_rect_area(r) }) }
+}
+impl<T: GeoFloat> CentroidOperation<T> {
+//@fn geo/src/algorithm/centroid.rs | impl<T: GeoFloat> CentroidOperation<T> | add_rect | id=C06.V.op_add_rect
+//@spec
+        ensures op_view(*final(self)) == rect_step(op_view(*old(self)), *rect),
 //@end
 }
 
